@@ -55,6 +55,10 @@ CHECKS = {
             'All 16-bit keys are tried on the field table and on the trait set of a live instance of every message, header, trailer and nested group of both schemas; names and near misses '
             'on the message/reverse tables; thousands of random op histories on both presorted_set templates.',
             'Independent schema model; ASan for the memmove/memcpy paths.', '3 C12'),
+    'C15': ('reader_frame', 'exploration', 'runtime monitor: the strings the real FIXReader hands to an overridden Session::process vs the generated stream, over real loopback TCP with seeded chunkings; ASan/UBSan (thorough adds TSan)',
+            'Hundreds of streams per run (0..40 valid messages, body sizes across the 1/2/3/4-digit BodyLength edges up to the maximum) in 6 chunkings incl. byte-by-byte and splits inside the preamble, in pm_thread and pm_pipeline, '
+            'optionally followed by one of 11 preamble corruptions; valid streams must be handed on exactly, after a corruption nothing corrupt may be handed on and the reader must stop.',
+            'A valid stream is kept open until everything was handed on; the 20 s wait for the reader to stop is a watchdog.', '3 C15'),
     'C16': ('session_sim', 'exploration', 'runtime monitor over recorded histories: wire bytes read from the peer socket + session counters + persisted control record at every quiescent point vs a numbering model',
             'Thousands of histories (5..60 steps) of application sends, batches, administrative sends, in-sequence inbound traffic, resend requests and restarts with recovery on one real Session '
             '(acceptor/initiator, file/memory persister, recovered or explicit start numbers); every new message must carry the next number and the control record must equal the counters after every command.',
@@ -87,6 +91,10 @@ CHECKS = {
             'Hundreds of schedules per run (daily, weekly, weekly wrapping the week end, weekly on a single weekday incl. the configuration default), built directly and from XML, utc offsets -720..+840, both initial '
             'states, ~45 000 check instants each; decode_dow exhaustively over a 100-byte alphabet (about one million strings).',
             'clock_gettime(CLOCK_REALTIME) interposed in the harness; what follows the unique day prefix is not examined.', '3 C24'),
+    'C25': ('conc_send', 'exploration', 'ThreadSanitizer build (with hook H1) + runtime oracle over the bytes read from the peer socket and the persister read-back, under 2..8 concurrent sender threads',
+            'Hundreds of runs (pm_thread/pm_pipeline x file/memory persister, send and send_batch mixed, seeded yields) with 40..1600 messages each: the wire stream must split into whole messages numbered consecutively in wire order, '
+            'each id once, store == wire; TSan reports outside the ff:: suppression are violations; the same workload also runs under ASan.',
+            'Only interleavings that occurred are judged; FastFlow internals are trusted (suppression race:^ff::) and tested functionally by C30.', '3 C25'),
     'C26': ('persist_model', 'exploration', 'model-based history checking: every API return of MemoryPersister/FilePersister vs a std::map + control-pair model, under ASan+UBSan',
             'Thousands of random histories (up to 120 operations, small key spaces so that collisions, refusals and empty ranges are frequent, reopen for the file store) '
             'are compared call by call with the model derived from the property text; range retrieval is observed through the retransmission callback.',
@@ -157,6 +165,8 @@ def main():
             {'name': 'session_sim', 'path': 'harness/session_sim.cpp', 'serves_properties': ['C16', 'C17', 'C18', 'C19', 'C20', 'C22', 'C23'],
              'kind_free_text': 'one real Session on a real connection (pm_coro, loopback TCP, virtual clock, timer thread stopped) driven interactively; python FIX session models in checks/session.py'},
             {'name': 'sched_mon', 'path': 'harness/sched_mon.cpp', 'serves_properties': ['C24'], 'kind_free_text': 'Schedule::test on a virtual clock vs window membership; decode_dow vs reference decoder'},
+            {'name': 'reader_frame', 'path': 'harness/reader_frame.cpp', 'serves_properties': ['C15'], 'kind_free_text': 'real connection reader vs generated streams and chunkings'},
+            {'name': 'conc_send', 'path': 'harness/conc_send.cpp', 'serves_properties': ['C25'], 'kind_free_text': 'concurrent senders, wire reader, store read-back; tsan and asan flavours'},
             {'name': 'persist_model', 'path': 'harness/persist_model.cpp', 'serves_properties': ['C26'], 'kind_free_text': 'random API histories vs map model'},
             {'name': 'persist_crash', 'path': 'harness/persist_crash.cpp', 'serves_properties': ['C27'], 'kind_free_text': 'fork + write/lseek countdown crash injection, reopen oracle'},
             {'name': 'logger_stress', 'path': 'harness/logger_stress.cpp', 'serves_properties': ['C28'], 'kind_free_text': 'producer threads + offline exactly-once/order checker'},
